@@ -332,13 +332,12 @@ let vfmode file =
                    let (rc, s') = (if String.sub tok 0 3 = "ts:" then pcm_seek s (zi target) else pcm_seek_page s (zi target)) in
                    st := Some s'; show tok (iz rc) (-1) time implraw
              end
-         | "pl:" | "ql:" | "rl:" ->
-             (* lapped seeks are modelled only where the plain seek rejects the argument: rejected, state untouched
-                (C08_out_of_range_rejected_unchanged); anything else is echoed *)
-             let (r, _) = (if String.sub tok 0 3 = "rl:" then raw_seek s (zi (arg ()))
-                           else if String.sub tok 0 3 = "ql:" then pcm_seek_page s (zi (arg ()))
-                           else pcm_seek s (zi (arg ()))) in
-             if iz r = -131 then show tok (-131) (-1) time implraw else print_endline line
+         | "pl:" ->
+             (* model-only line: do the hypotheses of theorem C19_lapped_seek_lands_on_target hold? (full rate) *)
+             Printf.printf "thml %s %d\n" tok (if iz s.v_hs = 0 && lap_hyps s (zi (arg ())) then 1 else 0);
+             let (r, s') = pcm_seek_lap s (zi (arg ())) in st := Some s'; show tok (iz r) (-1) time implraw
+         | "ql:" -> let (r, s') = pcm_seek_page_lap s (zi (arg ())) in st := Some s'; show tok (iz r) (-1) time implraw
+         | "rl:" -> let (r, s') = raw_seek_lap s (zi (arg ())) in st := Some s'; show tok (iz r) (-1) time implraw
          | "hr:" -> let (r, s') = halfrate s (arg () <> 0) in st := Some s'; show tok (iz r) (-1) time implraw
          | "rf:" -> let ((r, lk), s') = read_float (read_fuel s) s (zi (arg ())) in st := Some s'; show tok (iz r) (iz lk) time implraw
          | _ -> print_endline line)
